@@ -149,9 +149,12 @@ _TUPLE_METHODS = {"index", "count"}
 class PyInterp:
     def __init__(self, leaf: Optional[Callable[[ast.AST, dict], object]] = None,
                  lookup: Optional[Callable[[ast.Call], Optional[ast.AST]]] = None, max_steps: int = 200000,
-                 classes: Optional[Dict[str, ast.ClassDef]] = None):
+                 classes: Optional[Dict[str, ast.ClassDef]] = None, module_globals: Optional[Dict[str, ast.AST]] = None):
         self.leaf, self.lookup = leaf, lookup
         self.classes = dict(classes or {})  # plain classes of the analysed module that may be instantiated (`_AltTree()`)
+        # module-level constants (`TEXTTIER = "TextTier"`, `OOTEXTFILE = re.compile(...)`): name -> defining expression, evaluated on first use
+        self.module_globals = dict(module_globals or {})
+        self._global_values: Dict[str, object] = {}
         self.steps, self.max_steps = 0, max_steps
         self.depth = 0
 
@@ -195,6 +198,12 @@ class PyInterp:
                 return env[e.id]
             if e.id in ("True", "False", "None"):
                 return {"True": True, "False": False, "None": None}[e.id]
+            if e.id in self._global_values:
+                return self._global_values[e.id]
+            if e.id in self.module_globals:
+                v = self.eval(self.module_globals[e.id], {})
+                self._global_values[e.id] = v
+                return v
             if _stdlib(e.id) is not None:
                 return _Module(*_stdlib(e.id))
             if e.id in ("int", "str", "float", "bool", "list", "dict", "tuple", "set"):
